@@ -87,6 +87,9 @@ def fork_call(fn, arg, timeout=None):
     _, status = os.waitpid(pid, 0)
     if timed_out:
         raise HarnessError("child timed out after %.0fs" % timeout)
+    if status == 256 and not chunks:
+        # faulthandler.dump_traceback_later(..., exit=True) fired inside the child just before our own deadline
+        raise HarnessError("child timed out (in-child watchdog) after %.0fs" % timeout)
     if status != 0:
         raise HarnessError("child exited with status %r; partial=%r" % (status, b"".join(chunks)[:300]))
     try:
